@@ -13,55 +13,49 @@ theorem not_root_of_height_pos {U : List Block} {c : Chain} (w : TreeWF U c) {x 
   obtain ⟨r, hr, h0, _⟩ := w.root
   rw [e, hr] at hn; cases hn; omega
 
-theorem txCount_ne_zero {U : List Block} {c : Chain} (w : TreeWF U c) (hU : BlockTree c.root U) {x : Nat} {p : Node}
-    (hp : getNode c x = some p) (hx : x ≠ c.root) : p.txCount ≠ 0 := by
-  obtain ⟨b, hb, _, _, _, ht, _⟩ := w.blk x p hp hx
-  have h1 := hU.txs b hb
-  rw [ht]
-  intro h
-  exact h1 (List.eq_nil_of_length_eq_zero h)
-
-theorem climb_check_false {U : List Block} {c : Chain} (w : TreeWF U c) (hU : BlockTree c.root U) {x : Nat} {p : Node}
-    (hp : getNode c x = some p) : (p.txCount == 0 && p.id != c.root) = false := by
-  by_cases hx : x = c.root
-  · have := getNode_id hp
-    simp [this, hx]
-  · have := txCount_ne_zero w hU hp hx
-    simp [this]
+theorem climb_check_false {U : List Block} {c : Chain} (_w : TreeWF U c) {x : Nat} {p : Node}
+    (hp : getNode c x = some p) (hd : HasData c x p) : (p.txCount == 0 && p.id != c.root) = false := by
+  have hid := getNode_id hp
+  rcases hd with hx | hx
+  · simp [hid, hx]
+  · simp [hx]
 
 /-- MoveToBlock's height-levelling loop: from node `n` (id `x`) it returns the ancestor-or-self `m` of `n` at height
-    `min n.height h`; no panic, never "cannot continue" (every non-root node has its block data; the root is exempt). -/
-theorem climbChecked_spec {U : List Block} {c : Chain} (w : TreeWF U c) (hU : BlockTree c.root U) (h : Nat) :
-    ∀ (f x : Nat) (n : Node), getNode c x = some n → f > n.height →
+    `min n.height h`; no panic, never "cannot continue" — WHEN `n` HAS ITS DATA (then so has every ancestor, `TreeWF.anc`;
+    the root is exempt); the node returned has its data too. -/
+theorem climbChecked_spec {U : List Block} {c : Chain} (w : TreeWF U c) (h : Nat) :
+    ∀ (f x : Nat) (n : Node), getNode c x = some n → HasData c x n → f > n.height →
       ∃ m, climbChecked c h f n = .ok (some m) ∧ getNode c m.id = some m ∧ Desc c m.id x ∧
-        m.height = min n.height h := by
+        m.height = min n.height h ∧ HasData c m.id m := by
   intro f
   induction f with
-  | zero => intro x n _ hf; omega
+  | zero => intro x n _ _ hf; omega
   | succ f ih =>
-    intro x n hn hf
+    intro x n hn hdat hf
     rw [climbChecked]
     by_cases hh : n.height > h
     · have hx : x ≠ c.root := not_root_of_height_pos w hn (by omega)
       obtain ⟨p, hp, hph, _⟩ := w.par x n hn hx
-      obtain ⟨m, hm, hgm, hd, hmh⟩ := ih n.parent p hp (by omega)
-      refine ⟨m, ?_, hgm, Desc.trans hd (Desc.parent hn hx), by omega⟩
-      simp only [hh, if_true, node!, hp, bind, Except.bind, pure, Except.pure, climb_check_false w hU hp,
+      obtain ⟨p', hp', hpd⟩ := w.parent_has_data hn hx hdat
+      rw [hp] at hp'; cases hp'
+      obtain ⟨m, hm, hgm, hd, hmh, hmd⟩ := ih n.parent p hp hpd (by omega)
+      refine ⟨m, ?_, hgm, Desc.trans hd (Desc.parent hn hx), by omega, hmd⟩
+      simp only [hh, if_true, node!, hp, bind, Except.bind, pure, Except.pure, climb_check_false w hp hpd,
         Bool.false_eq_true, if_false, hm]
     · have hid := getNode_id hn
-      refine ⟨n, ?_, by rw [hid]; exact hn, by rw [hid]; exact Desc.refl, by omega⟩
+      refine ⟨n, ?_, by rw [hid]; exact hn, by rw [hid]; exact Desc.refl, by omega, by rw [hid]; exact hdat⟩
       simp only [hh, if_false, pure, Except.pure]
 
 /-- MoveToBlock's third loop: two nodes of the same height are climbed in lock-step to a common ancestor-or-self. -/
-theorem commonAnc_spec {U : List Block} {c : Chain} (w : TreeWF U c) (hU : BlockTree c.root U) :
-    ∀ (f x y : Nat) (tmp cur : Node), getNode c x = some tmp → getNode c y = some cur → tmp.height = cur.height →
-      f > cur.height →
+theorem commonAnc_spec {U : List Block} {c : Chain} (w : TreeWF U c) :
+    ∀ (f x y : Nat) (tmp cur : Node), getNode c x = some tmp → getNode c y = some cur → HasData c x tmp → HasData c y cur →
+      tmp.height = cur.height → f > cur.height →
       ∃ a, commonAnc c f tmp cur = .ok (some a) ∧ getNode c a.id = some a ∧ Desc c a.id x ∧ Desc c a.id y := by
   intro f
   induction f with
-  | zero => intro _ _ _ _ _ _ _ hf; omega
+  | zero => intro _ _ _ _ _ _ _ _ _ hf; omega
   | succ f ih =>
-    intro x y tmp cur hx hy hh hf
+    intro x y tmp cur hx hy hdx hdy hh hf
     have hidx := getNode_id hx
     have hidy := getNode_id hy
     rw [commonAnc]
@@ -81,6 +75,10 @@ theorem commonAnc_spec {U : List Block} {c : Chain} (w : TreeWF U c) (hU : Block
       have hxr : x ≠ c.root := not_root_of_height_pos w hx (by omega)
       obtain ⟨cp, hcp, hch, _⟩ := w.par y cur hy hyr
       obtain ⟨tp, htp, hth, _⟩ := w.par x tmp hx hxr
+      obtain ⟨cp', hcp', hcpd⟩ := w.parent_has_data hy hyr hdy
+      rw [hcp] at hcp'; cases hcp'
+      obtain ⟨tp', htp', htpd⟩ := w.parent_has_data hx hxr hdx
+      rw [htp] at htp'; cases htp'
       have hchk : (cur.parent != tmp.parent && cp.txCount == 0) = false := by
         by_cases hr : cur.parent = c.root
         · have h0 : cp.height = 0 := by
@@ -88,9 +86,9 @@ theorem commonAnc_spec {U : List Block} {c : Chain} (w : TreeWF U c) (hU : Block
             rw [hr, hr'] at hcp; cases hcp; exact h0
           have := w.root_of_height0 htp (by omega)
           simp [hr, this]
-        · have := txCount_ne_zero w hU hcp hr
+        · have := hcpd.resolve_left hr
           simp [this]
-      obtain ⟨a, ha, hga, hd1, hd2⟩ := ih tmp.parent cur.parent tp cp htp hcp (by omega) (by omega)
+      obtain ⟨a, ha, hga, hd1, hd2⟩ := ih tmp.parent cur.parent tp cp htp hcp htpd hcpd (by omega) (by omega)
       refine ⟨a, ?_, hga, Desc.trans hd1 (Desc.parent hx hxr), Desc.trans hd2 (Desc.parent hy hyr)⟩
       have he' : (tmp.id == cur.id) = false := by simpa using he
       simp only [he', Bool.false_eq_true, if_false, node!, hcp, htp, bind, Except.bind, pure, Except.pure, hchk, ha]
